@@ -105,7 +105,28 @@ Special ==
        Prog("x-ifinloopelse", << IfElse(Conds[1], << Upd(A, 1) >>, << Loop(N, I, << Upd(A, 2) >>), Upd(Bv, 3) >>) >>, <<"loopinelse">>),
        Prog("x-loopstore", << Loop(N, I, << Store(FALSE, 8, Bin("+", EA, I), CastE(U8, Bin("+", A, CastE(S32, I)))) >>), Set(Bv, Load(TRUE, 32, EA)) >>, <<"loopstore">>) >>
 
-Programs == Single \o Pairs \o Deep \o Special
+\* conditions that are VALUES (not comparisons): the branch / loop must test the value C computes, after every narrowing
+\* and widening conversion, in its full width.  B4 = b << 4 is 0 in its low byte and non-zero above for b = 16 (mod 32).
+B4 == Bin("<<", Bv, K(4))
+ValueConds ==
+    << CastE(S32, CastE(S8, B4)), CastE(S64, CastE(S16, Bin("<<", Bv, K(12)))), CastE(U32, CastE(U8, B4)), CastE(S8, B4), CastE(U16, Bin("<<", Bv, K(12))),
+       CastE(S64, Bv), Bin("<<", C, K(33)), Bin("-", Bv, K(16)), Un("~", Bin("|", Bv, Un("~", K(31)))), Bin("&", CastE(S64, B4), HexN(256, "LL")),
+       CastE(S32, CastE(S16, CastE(S8, B4))), Bin("*", CastE(S64, Bv), HexN(268435456, "LL")) >>
+CondProgs ==
+    Flatten([k \in 1..Len(ValueConds) |->
+        LET c == ValueConds[k] nm == ToString(k) IN
+        << Prog("vc-if-" \o nm, << Upd(A, 1), If(c, << Upd(A, 2) >>), Upd(A, 3) >>, <<"valuecond", "if">>),
+           Prog("vc-ifelse-" \o nm, << IfElse(c, << Upd(A, 1) >>, << Upd(A, 2) >>), Upd(A, 3) >>, <<"valuecond", "ifelse">>),
+           Prog("vc-ifelse2-" \o nm, << Upd(A, 1), IfElse(Un("!", c), << Upd(A, 4) >>, << Upd(A, 5) >>) >>, <<"valuecond", "ifelse-not">>) >>])
+    \o \* for (m = (b & 3) + 256; (T2)(T1) m; m--) : the loop must stop when the NARROWED value is 0
+       [k \in 1..3 |->
+          LET t1 == (<<U8, S8, U16>>)[k] t2 == (<<U32, S32, S64>>)[k]
+              m0 == IF k = 3 THEN Bin("+", Bin("&", Bv, K(3)), HexN(65536, "")) ELSE Bin("+", Bin("&", Bv, K(3)), K(256))
+          IN  Prog("vc-for-" \o ToString(k), << Decl(U32, "m", m0),
+                                                For(None, CastE(t2, CastE(t1, Var("m"))), Assign(Var("m"), "-=", K(1)), << Upd(A, 1) >>), Upd(A, 3) >>,
+                   <<"valuecond", "for">>)]
+
+Programs == Single \o Pairs \o Deep \o Special \o CondProgs
 
 VARIABLE x
 Init == x = JsonSerialize(IOEnv.GEN_OUT, Programs)
